@@ -7,8 +7,8 @@ import (
 )
 
 type SignedAggregateAndProof struct {
-	Message   AggregateAndProof   `json:"message"`
-	Signature common.BLSSignature `json:"signature"`
+	Message   AggregateAndProof   `json:"message" yaml:"message"`
+	Signature common.BLSSignature `json:"signature" yaml:"signature"`
 }
 
 func (a *SignedAggregateAndProof) Deserialize(spec *common.Spec, dr *codec.DecodingReader) error {
@@ -32,9 +32,9 @@ func (a *SignedAggregateAndProof) HashTreeRoot(spec *common.Spec, hFn tree.HashF
 }
 
 type AggregateAndProof struct {
-	AggregatorIndex common.ValidatorIndex `json:"aggregator_index"`
-	Aggregate       Attestation           `json:"aggregate"`
-	SelectionProof  common.BLSSignature   `json:"selection_proof"`
+	AggregatorIndex common.ValidatorIndex `json:"aggregator_index" yaml:"aggregator_index"`
+	Aggregate       Attestation           `json:"aggregate" yaml:"aggregate"`
+	SelectionProof  common.BLSSignature   `json:"selection_proof" yaml:"selection_proof"`
 }
 
 func (a *AggregateAndProof) Deserialize(spec *common.Spec, dr *codec.DecodingReader) error {
